@@ -164,7 +164,7 @@ def run_write(path, fmtname, game, writer, fail_at=None, internal=None, j=1, no_
         for u in undo:
             u()
     after = open(path, 'rb').read() if os.path.exists(path) else None
-    rec = {'dest0': 'absent' if before is None else 'old', 'events': list(_AUDIT['events']), 'raised': raised is not None,
+    rec = {'mustFail': internal == 'writer-unparseable', 'dest0': 'absent' if before is None else 'old', 'events': list(_AUDIT['events']), 'raised': raised is not None,
            'destAfter': 'absent' if after is None else ('old' if after == before else 'new')}
     return rec, counter[0], raised
 
